@@ -20,7 +20,7 @@ NA = {
  "C18": "pure functions of two texts",
 }
 
-PENDING = {k: "simulation check designed (DESIGN.md section 3) but not built yet in this commit; not claimed until it runs" for k in ["C08","C09","C19","C20"]}
+PENDING = {k: "simulation check designed (DESIGN.md section 3) but not built yet in this commit; not claimed until it runs" for k in ["C08","C19","C20"]}
 
 def check(pid, category, text, note, technique, design_ref):
     return {
@@ -43,6 +43,9 @@ CHECKS = {
  "C05": check("C05", "exploration",
     "Seeded search over thread schedules and per-item virtual processing/upstream/consumer delays of the real Pipe (and its compositions with Buffered and a second Pipe): every run is compared exactly with the sequential map, with exactly-once call counters from the event history and with termination of every worker thread. The failure windows are single statements wide, which only a scheduler that switches exactly there reaches; exhaustive enumeration is infeasible (busy-wait loop), so exploration is the honest level.",
     TRUST, "deterministic simulation: seeded scheduler + virtual clock over real Pipe/Buffered code, sequential-map oracle on the recorded history", "DESIGN.md 3 (C05)"),
+ "C09": check("C09", "fault_enumeration",
+    "The fault grid is enumerated completely - consumer drop after k=0..8 items with or without an idle consumer, and a panic of the processing function or of the upstream iterator (ticket lock held) on item j=0..8, for pipe / buffered / pipe+buffered, W=0..4, B=0..3, bounded and unbounded upstream - and inside each cell thread schedules and delay patterns are sampled from the seed. Oracles, no stronger than the statement: a generous linear look-ahead envelope 8*(W+B)+16 at every event, every background thread exits after the drop within the step cap, and a worker panic ends in ProcessExit(code != 0) reached through the repository's own hook closure, never in a blocked or spinning consumer. Fault points are few and discrete, so enumerating them is right; schedules are not enumerable (busy-wait), so they are sampled.",
+    TRUST, "deterministic simulation with enumerated fault injection (drop / panic / idle) under a seeded scheduler, unbounded upstream, simulated process::exit and panic hook", "DESIGN.md 3 (C09)"),
 }
 
 def main():
